@@ -811,7 +811,8 @@ func (v *Vertex) toDataAllRec(ctx *OpContext, processed map[*Vertex]*Vertex) *Ve
 	w.ClosedRecursive = false
 	w.ClosedNonRecursive = false
 
-	w.Conjuncts = slices.Clip(v.Conjuncts)
+	// The conjuncts are modified below: v may be shared, so work on a copy.
+	w.Conjuncts = slices.Clone(v.Conjuncts)
 
 	for i, c := range w.Conjuncts {
 		if v, _ := c.x.(Value); v != nil {
